@@ -352,6 +352,17 @@ class EqMethod(MethodDescriptor):
             if inspect.ismethod(value_self) and inspect.ismethod(value_other):
                 if value_self.__func__ is not value_other.__func__:
                     return False
+                # The same function bound to different objects is the same
+                # value only if those objects stand for each other: each
+                # operand's own method, or receivers that are equal themselves.
+                receiver_self = value_self.__self__
+                receiver_other = value_other.__self__
+                if not (
+                    (receiver_self is self and receiver_other is other)
+                    or receiver_self is receiver_other
+                    or receiver_self == receiver_other
+                ):
+                    return False
                 continue
             if value_self != value_other:
                 return False
